@@ -101,8 +101,12 @@ def core_py(e, elem=False):
             return c(e.func) and gen_core_py(e.args[0])          # f(x for x in y)
         return c(e.func) and all(el(a) for a in e.args) and all(c(k.value) for k in e.keywords)
     if t == "Subscript":
+        sl_ok = lambda sl: all(x is None or c(x) for x in (sl.lower, sl.upper, sl.step))
         if isinstance(e.slice, ast.Slice):
-            return c(e.value) and all(x is None or c(x) for x in (e.slice.lower, e.slice.upper, e.slice.step))
+            return c(e.value) and sl_ok(e.slice)
+        if isinstance(e.slice, ast.Tuple) and any(isinstance(x, ast.Slice) for x in e.slice.elts):
+            # an index tuple with a slice among its items: a[1:2, k]
+            return c(e.value) and all(sl_ok(x) if isinstance(x, ast.Slice) else c(x) for x in e.slice.elts)
         return c(e.value) and c(e.slice)
     if t in ("List", "Tuple"):
         return all(el(x) for x in e.elts)
